@@ -31,7 +31,7 @@ def main():
     for sid in ids:
         d = os.path.join(SEEDED, sid)
         patch = os.path.join(d, "patch.diff")
-        res = {"seed": sid, "applies": False, "checks": {}}
+        res = {"seed": sid, "applies": False, "checks": {}, "tree": sh("git", "-C", "/repo", "rev-parse", "--short", "HEAD").stdout.strip()}
         if sh("git", "-C", "/repo", "apply", "--check", patch).returncode != 0:
             # the tree has moved on since the change was written: try with reduced context
             ok = sh("git", "-C", "/repo", "apply", "-C1", "--check", patch).returncode == 0
@@ -65,11 +65,26 @@ def main():
         print(rows[-1], flush=True)
     # rebuild the harness from the restored tree
     sh("python3", os.path.join(ROOT, "tools", "verif.py"), "--setup")
+    write_results()
+
+
+def write_results():
+    """RESULTS.md from every seeded/<id>/result.json (the prescribed pass may be run in portions)"""
+    rows = []
+    for sid in sorted(os.listdir(SEEDED)):
+        rp = os.path.join(SEEDED, sid, "result.json")
+        if not os.path.isfile(rp):
+            continue
+        res = json.load(open(rp))
+        caught = [c for c, v in res["checks"].items() if v["exit"] == 1 and v["n_keys"] > 0]
+        rows.append((sid, res.get("title", ""), "yes: " + ", ".join(caught) if caught else ("NO" if res["applies"] else "n/a (does not apply)"),
+                     "; ".join("%s exit %d" % (c, v["exit"]) for c, v in res["checks"].items()), res.get("tree", "")))
     with open(os.path.join(SEEDED, "RESULTS.md"), "w") as f:
         f.write("# Seeded changes against the registered quick checks (git -C /repo apply; check; git -C /repo checkout -- .)\n\n")
-        f.write("| seed | change | caught by | runs |\n|---|---|---|---|\n")
+        f.write("Seeds without a row were judged in their scratch worktree only (`confirm.txt`, `check_<id>.log` in the seed's directory).\n\n")
+        f.write("| seed | change | caught by | runs | /repo commit |\n|---|---|---|---|---|\n")
         for r in rows:
-            f.write("| %s | %s | %s | %s |\n" % r)
+            f.write("| %s | %s | %s | %s | %s |\n" % r)
 
 
 if __name__ == "__main__":
